@@ -437,6 +437,8 @@ class Executor:
             return
         except (BreakExc, ContinueExc):
             raise Unsupported("break/continue outside loop")
+        if ct.returns is not None and not isinstance(result, VNone):
+            result = self.coerce(result, ct.returns, "return")
         v = View(self, st, old=self.entry_view)
         self.cover("return", self.fn)
         hints = ct.hints(v, result) if getattr(ct, "hints", None) else []
@@ -617,24 +619,26 @@ class Executor:
             return
         if isinstance(o, VDict):
             k = self.eval(target.slice)
-            if not isinstance(k, VInt):
-                raise Unsupported("dict key must be int")
+            if k.ty.sort() != o.kt.sort():
+                raise Unsupported("dict key type")
             new = self.dict_store(o, k, v)
             self.rebind(target.value, o, new)
             return
         raise Unsupported(f"subscript store on {o.ty}")
 
-    def dict_store(self, d: VDict, k: VInt, v):
+    def dict_store(self, d: VDict, k, v):
         inside = self.mem_keys(d.keys, k.t)
         # case split instead of an if-then-else term: the instantiator matches syntactically
-        newkeys = d.keys if self.choose(inside) else L.LInt.snoc(d.keys, k.t)
-        newval = z3.Store(d.val, k.t, v.t)
-        nd = VDict(newkeys, newval, d.et)
+        newkeys = d.keys if self.choose(inside) else d.KL.snoc(d.keys, k.t)
+        vt = opt_term(v) if isinstance(d.et, TOptional) else v.t
+        newval = z3.Store(d.val, k.t, vt)
+        nd = VDict(newkeys, newval, d.et, d.kt)
         return nd
 
     def mem_keys(self, keys, k):
         """k in keys, as a defined predicate with skolem witness"""
-        return L.mem_Int(keys, k)
+        mem, _w = L.mem_theory(k.sort())
+        return mem(keys, k)
 
     def rebind(self, expr, old, new):
         """in-place mutation of the container denoted by `expr` modelled as rebinding"""
@@ -701,7 +705,7 @@ class Executor:
                 st.env[name] = same_type_fresh(st.env[name], name, st)
         for ref in heap_mods:
             self.havoc_heap(ref)
-            if spec.stack == "grows":
+            if spec.stack == "grows" and not isinstance(ref, tuple):
                 # the body only pushes: below an unknown segment nothing can be popped
                 o = st.obj(ref)
                 st.update(ref, pushed=o["pushed"] + [None])
@@ -763,6 +767,11 @@ class Executor:
                         self.oblige(f"inv.frame.stack#{k}", node, a == b)
 
     def havoc_heap(self, ref):
+        if isinstance(ref, tuple):
+            _tag, r, name = ref
+            cur = self.st.obj(r)["fields"][name]
+            self.st.set_field(r, name, same_type_fresh(cur, name, self.st))
+            return
         o = self.st.heap[ref]
         if o["kind"] == "solver":
             self.st.update(ref, A=self.st.fresh_const("A", L.WSet))
@@ -822,6 +831,19 @@ class Executor:
                         v = ex.st.env.get(root.id)
                         if isinstance(v, VRef) and ex.st.obj(v.ref)["kind"] == "solver":
                             heap.add(v.ref)
+                        elif isinstance(v, VRef) and ex.st.obj(v.ref)["kind"] == "obj":
+                            ct = resolve_method(ex.st.obj(v.ref)["cls"], f.attr)
+                            if ct is not None:
+                                first = list(ct.params.keys())[0]
+                                for m in ct.modifies:
+                                    path = m.split(".")
+                                    if path[0] != first:
+                                        continue  # other parameters: handled below if they are solvers
+                                    o = v
+                                    for pth in path[1:-1]:
+                                        o = ex.st.obj(o.ref)["fields"][pth]
+                                    if len(path) > 1:
+                                        heap.add(("field", o.ref, path[-1]))
                         elif isinstance(v, (VList, VDict)) and f.attr in ("append", "extend", "add", "update", "pop", "remove", "clear", "insert", "discard"):
                             names.add(root.id)
                     # calls that receive a solver as argument may modify it
@@ -843,7 +865,7 @@ class Executor:
         if isinstance(v, VList):
             return v
         if isinstance(v, VDict):
-            return VList(v.keys, TInt)
+            return v.keylist()
         raise Unsupported(f"iteration over {v.ty}")
 
     # ---- expressions ---------------------------------------------------------------
@@ -965,7 +987,7 @@ class Executor:
             kk = z3.simplify(k.t)
             if z3.is_int_value(kk):
                 return o.items[kk.as_long()]
-        if isinstance(o, VDict) and isinstance(k, VInt):
+        if isinstance(o, VDict) and hasattr(k, "t") and k.t.sort() == o.kt.sort():
             self.oblige("noraise.key", node, self.mem_keys(o.keys, k.t))
             return o.et.wrap(z3.Select(o.val, k.t))
         raise Unsupported(f"subscript {o.ty}[{k.ty}]")
@@ -982,7 +1004,7 @@ class Executor:
         if isinstance(v, VEmptyList):
             return z3.BoolVal(False)
         if isinstance(v, VDict):
-            return L.LInt.len(v.keys) > 0
+            return v.KL.len(v.keys) > 0
         if isinstance(v, VFalseOr):
             return z3.And(z3.Not(v.isfalse), self.truth(v.val))
         if isinstance(v, VOptional):
@@ -1072,6 +1094,13 @@ class Executor:
         if isinstance(op, (ast.Eq, ast.NotEq)):
             r = self.equal(a, b)
             return r if isinstance(op, ast.Eq) else z3.Not(r)
+        if isinstance(op, (ast.Lt, ast.LtE, ast.Gt, ast.GtE)):
+            if isinstance(a, VOptional):
+                self.oblige("noraise.compare_none", node, z3.Not(a.isnone))
+                a = a.val
+            if isinstance(b, VOptional):
+                self.oblige("noraise.compare_none", node, z3.Not(b.isnone))
+                b = b.val
         if isinstance(a, VInt) and isinstance(b, VInt):
             if isinstance(op, ast.Lt):
                 return a.t < b.t
@@ -1088,7 +1117,7 @@ class Executor:
                 if present is None:
                     present = z3.BoolVal(a.const in rec["fields"])
                 return present if isinstance(op, ast.In) else z3.Not(present)
-            if isinstance(b, VDict) and isinstance(a, VInt):
+            if isinstance(b, VDict) and hasattr(a, "t") and a.t.sort() == b.kt.sort():
                 r = self.mem_keys(b.keys, a.t)
                 return r if isinstance(op, ast.In) else z3.Not(r)
         raise Unsupported(f"comparison {op.__class__.__name__} on {a.ty},{b.ty}")
